@@ -2,6 +2,7 @@
 #ifndef VF_MATH_HH
 #define VF_MATH_HH
 
+#include <cfenv>
 #include <cmath>
 #include <vector>
 
@@ -85,6 +86,7 @@ __attribute__((noinline)) void run_rounding(long id, const char *desc, ld f, u64
     pv = vals.data();
     const ld eps = (ld)std::numeric_limits<W>::epsilon();
     vf::run_loop(0, vals.size(), [&](u64 i) {
+        std::fesetround(FE_TONEAREST);  // (a trapped call may have left a directed mode behind)
         const R x = vf::launder(pv[i]);
         { u64 b = 0; memcpy(&b, &x, sizeof(R) < 8 ? sizeof(R) : 8); vf::g_aux0 = b; }
         if (!std::isfinite((ld)x)) { g_st.skipped++; return; }
@@ -110,7 +112,28 @@ __attribute__((noinline)) void run_rounding(long id, const char *desc, ld f, u64
         if ((ld)fl_i != (ld)fl) mismatch("floor_as<T>", x, x, fl_i, (long long)fl);
         // ordering between the three
         if (!((ld)fl <= (ld)ro && (ld)ro <= (ld)ce && (ld)ce - (ld)fl <= 1)) mismatch("floor<=round<=ceil", x, x, ro, ro);
+        // the same three under the directed rounding modes: std::floor/ceil/round do not depend on the current rounding
+        // direction, and the unit conversion's own error (now up to one ulp, in one direction) is inside the same band
+        static const int modes[3] = {FE_DOWNWARD, FE_UPWARD, FE_TOWARDZERO};
+        static const char *mname[3][3] = {{"floor_in@FE_DOWNWARD", "ceil_in@FE_DOWNWARD", "round_in@FE_DOWNWARD"}, {"floor_in@FE_UPWARD", "ceil_in@FE_UPWARD", "round_in@FE_UPWARD"},
+                                          {"floor_in@FE_TOWARDZERO", "ceil_in@FE_TOWARDZERO", "round_in@FE_TOWARDZERO"}};
+        if ((i & 3) == 0) {
+            for (int mi = 0; mi < 3; ++mi) {
+                W f2{}, c2{}, r2{};
+                VF_PHASE(vf::PH_OPERATION) {
+                    std::fesetround(modes[mi]);
+                    f2 = au::floor_in(DstU{}, q); c2 = au::ceil_in(DstU{}, q); r2 = au::round_in(DstU{}, q);
+                    std::fesetround(FE_TONEAREST);
+                }
+                std::fesetround(FE_TONEAREST);
+                g_st.evals += 3;
+                if (!round_ok((ld)f2, v, band, 0)) mismatch(mname[mi][0], x, x, f2, (W)std::floor(v));
+                if (!round_ok((ld)c2, v, band, 1)) mismatch(mname[mi][1], x, x, c2, (W)std::ceil(v));
+                if (!round_ok((ld)r2, v, band, 2)) mismatch(mname[mi][2], x, x, r2, (W)std::round(v));
+            }
+        }
     });
+    std::fesetround(FE_TONEAREST);
     dump("mround", id, desc);
 }
 
@@ -187,6 +210,45 @@ struct Inv<SrcU, R, DstU, Implicit, false> {
         dump("minv", id, desc);
     }
 };
+
+// explicit-rep inversion with a target rep other than the source rep: inverse_in<T>(dst, q) == trunc(K / x) computed in the
+// common type of T and R and cast to T
+template <typename T>
+ld ulp15(ld e) { e = std::fabs(e); if (e == 0 || !std::isfinite(e)) return 0; int ex; std::frexp(e, &ex); return std::ldexp((ld)1, ex - std::numeric_limits<T>::digits); }
+template <typename SrcU, typename R, typename DstU, typename T>
+__attribute__((noinline)) void run_inv_mixed(long id, const char *desc, ld K, u64 nrandom, u64 seed) {
+    using C = std::common_type_t<T, R>;
+    g_st.clear();
+    vf::g_inst = id;
+    static std::vector<R> vals;
+    vals.clear();
+    for (int n = 1; n <= 400; ++n) { vals.push_back((R)n); if (std::is_floating_point<R>::value) { vals.push_back((R)(n + 0.5L)); vals.push_back((R)(n * 0.3L)); vals.push_back((R)(n / 64.0L)); vals.push_back((R)(-n - 0.25L)); } else if (std::is_signed<R>::value) vals.push_back((R)-n); }
+    { vf::Rng r(seed); for (u64 i = 0; i < nrandom; ++i) { ld y = (ld)(r.next() % 2000000 + 1) / (std::is_floating_point<R>::value ? 128.0L : 1.0L); if (y <= (ld)std::numeric_limits<R>::max()) vals.push_back((R)y); } }
+    static const R *pv;
+    pv = vals.data();
+    vf::run_loop(0, vals.size(), [&](u64 i) {
+        const R x = vf::launder(pv[i]);
+        { u64 b = 0; memcpy(&b, &x, sizeof(R) < 8 ? sizeof(R) : 8); vf::g_aux0 = b; }
+        if (!std::isfinite((ld)x) || x == 0) { g_st.skipped++; return; }
+        const ld want = K / (ld)x;
+        const ld tmax = std::is_integral<T>::value ? std::ldexp((ld)1, std::numeric_limits<T>::digits - 2) : (ld)std::numeric_limits<T>::max() / 4;
+        if (std::fabs(want) > tmax || (std::is_unsigned<T>::value && want < 0)) { g_st.skipped++; return; }
+        auto q = au::make_quantity<SrcU>(x);
+        T a{}, b{};
+        VF_PHASE(vf::PH_OPERATION) { a = au::inverse_in<T>(DstU{}, q); b = au::inverse_as<T>(DstU{}, q).in(DstU{}); }
+        g_st.evals += 2;
+        // error the computation in C may carry (K itself may be rounded into C when C is floating; integral C is exact)
+        const ld e = std::is_floating_point<C>::value ? 6 * ulp15<C>(want) : 0;
+        if (std::is_integral<T>::value) {
+            const ld lo = std::trunc(want - e), hi = std::trunc(want + e);
+            if ((ld)a < std::min(lo, hi) || (ld)a > std::max(lo, hi)) mismatch("inverse_in<T> (T != R)", x, x, a, (T)std::trunc(want));
+        } else {
+            if (!(std::fabs((ld)a - want) <= e + 2 * ulp15<T>(want))) mismatch("inverse_in<T> (T != R)", x, x, a, (T)want);
+        }
+        if (!vfw::same_value(a, b)) mismatch("inverse_as<T> != inverse_in<T>", x, x, b, a);
+    });
+    dump("minv", id, desc);
+}
 
 // ---- neighbourhood oracle ------------------------------------------------------------------------------
 template <typename T, typename F>
@@ -330,6 +392,32 @@ __attribute__((noinline)) void run_misc(long id, const char *desc, u64 nrandom, 
             if (!vfw::same_value(cl, y)) mismatch("clamp(q,p,p)", x, y, cl, y);
         }
     });
+    // every ordered pair/triple of special values (signed zeros, NaN, infinities, extremes): bitwise the std functions
+    {
+        static std::vector<R> sp;
+        sp.clear();
+        const R base[] = {R(0), R(1), R(-1), R(2), std::numeric_limits<R>::max(), std::numeric_limits<R>::lowest(), std::numeric_limits<R>::min()};
+        for (R b : base) sp.push_back(b);
+        if (std::is_floating_point<R>::value) { sp.push_back(-R(0)); sp.push_back(std::numeric_limits<R>::quiet_NaN()); sp.push_back(std::numeric_limits<R>::infinity()); sp.push_back(-std::numeric_limits<R>::infinity()); sp.push_back(std::numeric_limits<R>::denorm_min()); }
+        static const R *ps; static size_t ns;
+        ps = sp.data(); ns = sp.size();
+        vf::run_loop(0, ns * ns * ns, [&](u64 i) {
+            const R x = vf::launder(ps[i % ns]), y = vf::launder(ps[(i / ns) % ns]), z = vf::launder(ps[i / ns / ns]);
+            { u64 b = 0, c = 0; memcpy(&b, &x, sizeof(R) < 8 ? sizeof(R) : 8); memcpy(&c, &y, sizeof(R) < 8 ? sizeof(R) : 8); vf::g_aux0 = b; vf::g_aux1 = c; }
+            auto q = au::make_quantity<U>(x), p = au::make_quantity<U>(y), r = au::make_quantity<U>(z);
+            R mn{}, mx{}, cl{};
+            VF_PHASE(vf::PH_OPERATION) { mn = min(q, p).in(U{}); mx = max(q, p).in(U{}); }
+            g_st.evals += 2;
+            if (!vfw::Bits<R>::same(mn, std::min(x, y))) mismatch("min(special)", x, y, mn, std::min(x, y));
+            if (!vfw::Bits<R>::same(mx, std::max(x, y))) mismatch("max(special)", x, y, mx, std::max(x, y));
+            if (!(z < y)) {  // clamp(v, lo, hi) is defined for !(hi < lo)
+                VF_PHASE(vf::PH_OPERATION) { cl = clamp(q, p, r).in(U{}); }
+                g_st.evals++;
+                const R want = (x < y) ? y : ((z < x) ? z : x);  // std::clamp (C++17) as specified
+                if (!vfw::Bits<R>::same(cl, want)) mismatch("clamp(special)", x, y, cl, want);
+            }
+        });
+    }
     dump("mmisc", id, desc);
 }
 
